@@ -24,7 +24,7 @@ fn epoch_ext_json(e: &EpochExt) -> Value {
     })
 }
 
-pub fn params_record(gi: &GenesisInfo, plan: &Plan, seed: u64) -> Value {
+pub fn params_record(gi: &GenesisInfo, plan: &Plan, seed: u64, genesis_secondary: u64) -> Value {
     let c = &gi.consensus;
     let w = c.tx_proposal_window();
     let r = c.proposer_reward_ratio();
@@ -35,6 +35,7 @@ pub fn params_record(gi: &GenesisInfo, plan: &Plan, seed: u64) -> Value {
         "history": plan.index,
         "initial_primary_epoch_reward": c.initial_primary_epoch_reward().as_u64(),
         "secondary_epoch_reward": c.secondary_epoch_reward().as_u64(),
+        "genesis_secondary_epoch_reward": genesis_secondary,
         "halving_interval": c.primary_epoch_reward_halving_interval(),
         "proposer_ratio": [r.numer(), r.denom()],
         "w_close": w.closest(),
